@@ -120,8 +120,64 @@ class SmallScope(LinkHistory):
             yield {"ops": ops}
 
 
+class EqualLinks(Leg):
+    """links that are == but not the same object.  Vertex.add_to_link's own documentation promises identity semantics
+    ("== duplicate links are allowed, `is` duplicate links are ignored"); the implementation tests `link not in self._links`.
+    Judged on the implementation (the Coq model is identity-based: ids); the Gallina term is `true`."""
+    name = "eqlinks"
+    imports = "From EG Require Import Base."
+    checkfn = "(fun b : bool => b)"
+    case_type = "bool"
+    exhaustive = True
+    rule = ("fixed cases: an edge subclass with value equality (__eq__ / __hash__ on an attribute `kind`), two equal edges created "
+            "between the same / different vertices through the constructor, add_to_link and link_from_to; after each call: a link "
+            "is in a vertex's links (by identity) iff the vertex is among the link's vertices (by identity)")
+    quick_n = 3
+    thorough_n = 3
+
+    def generate(self, rng, n):
+        for how in ("constructor", "add_to_link", "other_pair"):
+            yield {"how": how}
+
+    def observe(self, case):
+        from edgegraph.structure import Vertex, DirectedEdge
+
+        class Road(DirectedEdge):
+            def __eq__(self, other):
+                return isinstance(other, Road) and getattr(other, "kind", None) == getattr(self, "kind", None)
+
+            def __hash__(self):
+                return hash(getattr(self, "kind", None))
+        a, b, c = Vertex(), Vertex(), Vertex()
+        r1 = Road(a, b, attributes={"kind": "x"})
+        if case["how"] == "constructor":
+            r2 = Road(a, b, attributes={"kind": "x"})
+        elif case["how"] == "add_to_link":
+            r2 = Road(attributes={"kind": "x"})
+            r2.add_vertex(a)
+            b.add_to_link(r2)
+        else:
+            r2 = Road(c, a, attributes={"kind": "x"})
+        bad = []
+        for ln, l in (("first", r1), ("second", r2)):
+            for vn, v in (("a", a), ("b", b), ("c", c)):
+                in_links = any(x is l for x in v.links)
+                in_verts = any(x is v for x in l.vertices)
+                if in_links != in_verts:
+                    bad.append(f"the {ln} edge {'lists' if in_verts else 'does not list'} vertex {vn}, which "
+                               f"{'lists' if in_links else 'does not list'} it")
+        return {"bad": bad}
+
+    def oracle(self, case, obs):
+        return [f"two == edges ({case['how']}): " + "; ".join(obs["bad"])] if obs["bad"] else []
+
+    def term(self, case, obs):
+        return "true"
+
+
 class C01(Prop):
     pid = "C01"
-    legs = [LinkHistory(), SmallScope()]
+    legs = [LinkHistory(), SmallScope(), EqualLinks()]
     assumptions = ["histories of well-typed calls (ids allocated, vertex where a vertex is expected)",
-                   "no user subclass overrides __eq__/__hash__; objects compare by identity"]
+                   "in the lock-step legs no user subclass overrides __eq__/__hash__ (the model names objects by identity); links that "
+                   "are == without being identical are exercised by the fixed cases of leg eqlinks (known finding D24)"]
